@@ -25,6 +25,8 @@ where
     let rightbound = sbbox.max.x.min(cbbox.max.x);
 
     while let Some(event) = event_queue.pop() {
+        #[cfg(feature = "verif-hooks")]
+        crate::verif::on_event();
         #[cfg(feature = "debug-booleanop")]
         {
             println!("\n{{\"processEvent\": {}}}", event.to_json_debug());
@@ -34,6 +36,8 @@ where
         if operation == Operation::Intersection && event.point.x > rightbound
             || operation == Operation::Difference && event.point.x > sbbox.max.x
         {
+            #[cfg(feature = "verif-hooks")]
+            crate::verif::probe(crate::verif::Site::EarlyBreak);
             break;
         }
 
@@ -51,6 +55,8 @@ where
                     println!("{{\"seNextEvent\": {}}}", next.to_json_debug());
                 }
                 if possible_intersection(&event, next, event_queue) == 2 {
+                    #[cfg(feature = "verif-hooks")]
+                    crate::verif::probe(crate::verif::Site::Recompute);
                     // Recompute fields for current segment and the one above (in bottom to top order)
                     compute_fields(&event, maybe_prev, operation);
                     compute_fields(next, Some(&event), operation);
@@ -63,6 +69,8 @@ where
                     println!("{{\"sePrevEvent\": {}}}", prev.to_json_debug());
                 }
                 if possible_intersection(prev, &event, event_queue) == 2 {
+                    #[cfg(feature = "verif-hooks")]
+                    crate::verif::probe(crate::verif::Site::Recompute);
                     let maybe_prev_prev = sweep_line.prev(prev);
                     // Recompute fields for current segment and the one below (in bottom to top order)
                     compute_fields(prev, maybe_prev_prev, operation);
